@@ -644,7 +644,8 @@ def run(tier, rep, only=None):
         sp = [s for s in sp if only in explore.build(s).name]
     rep.bounds = {"package names": "<=3 characters over 'a b .', valid dotted names", "history": "generate(force) ; tamper ; generate(force?/fault?)",
                   "fault stages": NFAULT - 1}
-    rep.stubs = ["loader, WarningCollector, the seven emitters, PostprocessManager -> recording stubs writing one file each below the directory they are given",
+    rep.stubs = ["loader, WarningCollector, the seven emitters -> recording stubs writing one file each below the directory they are given",
+                 "PostprocessManager -> its REAL ruff steps (command lines are the repo's) run against a model of the tool: ruff without --no-cache / --cache-dir writes .ruff_cache into the working directory, taken to be the project root; mypy is not run",
                  "pathlib.Path / tempfile / shutil / os.path / open in client_generator -> lib/memfs.py (instrumented run); the uninstrumented run uses the real file system",
                  "difflib.unified_diff -> contract model (no output iff equal line lists)"]
     rep.assumptions = ["package names are valid dotted names (no empty segment)", "emitters write only below the directory they are given (lemma, decided for the tag-routed emitters under C07/C13)"]
